@@ -28,8 +28,8 @@ from zope.interface import implementer
 
 PROPERTY = 'C06'
 LEVEL = 'exploration'
-QUICK_RUNS = 8000
-QUICK_BUDGET_S = 90
+QUICK_RUNS = 60000
+QUICK_BUDGET_S = 60
 THOROUGH_BUDGET_S = 600
 RULE = ('authentication line sequences over a 24-symbol alphabet (all sequences of length '
         '<= 3 over 9 symbols x 3 mechanism-outcome scripts as a sweep; random ones of up to '
